@@ -1,9 +1,65 @@
 # table consumed by tools/mkmanifest.py
 NOT_APPLICABLE = {}
 NOTE = ('Trusted base: the reference SGR terminal vlib/sgrterm.py (self-tested on hand-computed vectors at every start), '
-        'CPython str/re as differential oracles, Hypothesis as generator. Exploration only: no absence claim beyond the '
-        'sub-domains recorded as exhaustive in the evidence file.')
+        'CPython str/re/format as differential oracles, Hypothesis as generator, the interpreter vlib/interp.py that turns JSON cases '
+        'into public API calls. Exploration only: no absence claim beyond the sub-domains recorded as exhaustive in the evidence file. '
+        'Ambiguity classes listed in DESIGN.md section 3 are generated but not asserted.')
+PBT = 'property-based testing (Hypothesis-generated JSON cases, collect-then-shrink): '
 
-add('C19', 'property-based testing: exhaustive small-scope enumeration + Hypothesis generation against an independent CSI tokeniser and a re-insertion round trip',
-    'Every string over a 6-symbol core alphabet up to length 5 (quick) / 7 (thorough) and tens of thousands of generated longer strings are parsed under 8 flag combinations and compared with an independent tokeniser; losslessness (re-insertion, formatted_str, str, repr) is asserted for every string; each helper is checked against its documented final byte for generated integers.',
+add('C01', PBT + 'rendering of generated program values under all 8 flag combinations interpreted by an independent reference SGR terminal; exhaustive enumeration of style-state bridges',
+    'Generated reachable values (constructor + up to 5 operations, nested operands) are rendered under every optimize/reset_start/reset_end combination and interpreted by a reference terminal written from ECMA-48: displayed text, per-character style, optimize equivalence, reset_start independence from prior state and reset_end are compared with what the object reports. Every ordered pair of ~66 style states (all effect groups, set/changed/cleared) is enumerated in 4 layouts x 8 flags.',
+    NOTE, 'DESIGN.md section 3 C01')
+add('C02', PBT + 'token-grammar and free-form input strings plus exhaustive small token strings, parsed and compared with an independent terminal interpretation',
+    'Input strings from a token grammar (SGR bodies with extended-colour groups at any position, non-SGR and unterminated sequences), free-form strings and all token strings up to length 5/6 are parsed by both classes; base text and per-character effective style are compared with the reference terminal run on the raw input.',
+    NOTE, 'DESIGN.md section 3 C02')
+add('C03', PBT + 'round-trip and metamorphic relations (render -> parse, simplify idempotence and fixed point) over generated program values',
+    'For generated reachable values: AnsiString(str(v)) keeps text and per-character effective style; simplify keeps both, leaves only valid parsable settings, is idempotent on the rendering and yields a parse/render fixed point.',
+    NOTE, 'DESIGN.md section 3 C03')
+add('C04', PBT + 'generated values x generated and exhaustively enumerated slice bounds against Python slice semantics on the base text and the per-character settings table',
+    'Slices, integer indices, clip, iteration and step handling of generated values are compared character by character with the source (settings multiset and per-effect-group precedence) and each result is checked to be closed at its end; one sub-check enumerates all (start, stop) pairs per value.',
+    NOTE, 'DESIGN.md section 3 C04')
+add('C05', PBT + 'generated operand pairs incl. a seam-forcing generator; +, +=, join and split-and-rejoin at every k compared with the operands\' own per-character settings and, for rejoin, display identity on the reference terminal',
+    'Concatenation results are compared per character with snapshots of the operands taken before the call, for all seam configurations the implementation merges (equal, prefix, permuted, extended, staggered stops); join is compared with the left fold of +; s[:k]+s[k:] for every k is compared with s.',
+    NOTE, 'DESIGN.md section 3 C05')
+add('C06', PBT + 'before/after snapshots with setting identities around apply_formatting over generated values, ranges, settings and both topmost modes',
+    'Text, outside-range settings, inside-range multiset (old + given), precedence of old settings, and the displayed value of the effects involved (topmost=False: existing effects unchanged; topmost=True: new settings on top until another setting begins) are checked on the reference terminal.',
+    NOTE, 'DESIGN.md section 3 C06')
+add('C07', PBT + 'before/after comparison around remove_formatting / clear_formatting over generated values, selections picked from the value, and ranges',
+    'Inside the range the reported list must equal the previous list minus the selected texts in the same order; outside it settings and precedence must be unchanged; empty ranges are no-ops; clear_formatting leaves no settings.',
+    NOTE, 'DESIGN.md section 3 C07')
+add('C08', PBT + 'stateful / model-based: generated operation histories over a register file of live values with a snapshot invariant after every step',
+    'Histories of 3-30 public operations (in-place and non-in-place forms, binary operations between any live values incl. a value with itself) are executed; after each step every live value other than an in-place receiver must have an identical snapshot, settings lists must be unchanged, in-place calls must return the receiver and equal the non-in-place twin, results must not alias live values.',
+    NOTE, 'DESIGN.md section 3 C08')
+add('C09', PBT + 'stateful generation with a wide (hostile) argument domain; termination as a deterministic line-event bound; error-type discipline, atomic failure and a consistency invariant after every step',
+    'Histories mixing ordinary operations with empty / zero / negative / huge / invalid / wrongly typed arguments; each call must finish within a line-event bound, succeed or raise a documented error type, leave all live values unchanged on error, and leave every live value answering all queries, renderings, slices, concatenations and copies with the library self-check enabled.',
+    NOTE, 'DESIGN.md section 3 C09')
+add('C10', PBT + 'differential testing against str on the base text for every str-like method with generated arguments',
+    'Every listed query and transforming method of both classes is called with generated texts and arguments and compared (value or exception type) with str, the documented deviations being applied to the expected side.',
+    NOTE, 'DESIGN.md section 3 C10')
+add('C11', PBT + 'pieces / edited results compared with the original at true offsets computed independently from the str result',
+    'For values with position-dependent formatting over a small alphabet, every piece of split/rsplit/splitlines/partition/strip/removeprefix/suffix, case conversions, assign_str, replace (plain and formatted replacements, reused over matches) and expandtabs is compared character by character with the original at its true offset.',
+    NOTE, 'DESIGN.md section 3 C11')
+add('C12', PBT + 'padding methods against format() and the statement\'s fill-style rule; format specs against an independent enumerator of all parses of the documented grammar',
+    'ljust/rjust/center/zfill: text equals format(), original characters keep their settings, fill characters are styled only when extending, results are closed. Specs: an independent parser enumerates every parse of the documented grammar; the output must equal (string or display-identical) pad-then-apply on a copy for some parse, ValueError exactly when no parse exists.',
+    NOTE, 'DESIGN.md section 3 C12')
+add('C13', PBT + 'differential (twin) execution of generated operation sequences on AnsiString and AnsiStr; constructor matrix; payload equality through str.__str__, %s, file.write',
+    'The same operation sequence is applied step by step to an AnsiString copy and to its AnsiStr twin; text, settings, 8 renderings, format() under several specs, result types and scalar queries must agree after every step; every AnsiStr produced must have a str payload equal to its rendering.',
+    NOTE, 'DESIGN.md section 3 C13')
+add('C14', PBT + 'exhaustive enumeration of all AnsiFormat names x spellings and all codes 0..255; generated helper arguments and nested structures; fixed error table',
+    'All 800 names x 14 spellings x 3 entry points, all codes as int/str/padded/verbatim, rgb/color256 helpers and string forms against an own formula, nested lists/tuples against in-order flattening, and an error table (unknown names, negative ints, malformed rgb/colour strings, unsupported types, self-containing lists).',
+    NOTE, 'DESIGN.md section 3 C14')
+add('C15', PBT + 'exhaustive small-alphabet and generated setting texts classified by an independent grammar; conjunction and rendering well-formedness over generated values',
+    'valid/parsable of fresh AnsiSetting objects (both query orders, repeated) against an own grammar for all texts over a 9-symbol alphabet up to length 5/6 and generated near-misses; is_formatting_valid/parsable as conjunction over settings in use; renderings of valid values strip to the base text and contain every setting intact.',
+    NOTE, 'DESIGN.md section 3 C15')
+add('C16', PBT + 'format_matching/unformat_matching against a fold of apply/remove over re.finditer matches on a copy',
+    'For generated values, patterns (plain with metacharacters, valid regexes incl. empty matches), case flag, counts and settings, the object state must equal the fold of apply_formatting/remove_formatting over the first count re matches; characters outside matches unchanged.',
+    NOTE, 'DESIGN.md section 3 C16')
+add('C17', PBT + 'find_settings / ansi_settings_at / settings_at against the per-character settings table, generated and exhaustively enumerated ranges',
+    'ansi_settings_at outside the text, settings_at as join, and find_settings (forward and reverse) are checked against the table of per-character settings for generated and, per value, all (start, end) ranges.',
+    NOTE, 'DESIGN.md section 3 C17')
+add('C18', PBT + 'exhaustive code lists over a 16-symbol alphabet up to length 4/5 and generated lists, reduced with settings_to_dict and compared with the reference terminal',
+    'parse_graphic_sequence + settings_to_dict must reach the reference terminal state for every code list (str / int list / str list / mixed; blanks, leading zeros), with add_erroneous=True keeping every integer token in order; settings_to_dict on prior states; arguments not modified.',
+    NOTE, 'DESIGN.md section 3 C18')
+add('C19', PBT + 'exhaustive small-scope enumeration + Hypothesis generation against an independent CSI tokeniser and a re-insertion round trip',
+    'Every string over a 6-symbol core alphabet up to length 5 (quick) / 7 (thorough) and generated longer strings are parsed under 8 flag combinations and compared with an independent tokeniser; losslessness (re-insertion, formatted_str, str, repr) is asserted for every string; each helper is checked against its documented final byte for generated integers.',
     NOTE, 'DESIGN.md section 3 C19')
